@@ -43,4 +43,11 @@ def preserve(payload):
                         y1 = m(x)
                     if not torch.allclose(y0, y1, atol=1e-6):
                         return {"status": "fail", "cases": cases, "detail": f"{name}.{meth}: architecture unchanged but the function changed (max diff {float((y0 - y1).abs().max()):.3e})"}
+    # normalisation parameters and BatchNorm statistics of CNN encoders (scripts written as contract checks of the same two functions)
+    from replays import demos
+    for name in ("C04_demo_1", "C04_demo_2"):
+        r = demos.run({"name": name, "budget_s": 200})
+        cases += 1
+        if r["status"] != "pass":
+            return dict(r, cases=cases)
     return {"status": "pass", "cases": cases}
